@@ -6,7 +6,7 @@
    per-sample end-to-end bound with the coded integer kernels' deviation from an exact
    inverse pair as explicit hypotheses (_partial: those two hypotheses are not discharged;
    the 12-bit decoder's floating kernel enters the same way), the quality-100 corollary,
-   the RGB propagation, and that 1x1-sampled streams decode onto the right block grid.
+   the RGB propagation, and that every scan block is decoded onto its own cell of the block grid.
    Theorems over R depend on the axioms of Coq's Reals (listed by Print Assumptions). *)
 From Coq Require Import Reals QArith Qabs.
 From V Require Import Common.Base Gen.JpegTables_gen JpegDCT.DctQuant JpegDCT.DctZigzag JpegDCT.DctGeometry
@@ -135,9 +135,18 @@ Theorem C11_rgb_propagate : forall dy dcb dcr by_ bcb bcr : R,
 Proof. exact DctProofsR.C11_rgb_propagate. Qed.
 Print Assumptions C11_rgb_propagate.
 
-(* identical geometry: the streams the encoders emit (1x1 sampling) are decoded onto the
-   block grid they were encoded from, every width and height 1..40 (all partial shapes) *)
-Theorem C11_scan_grid_ok_444 : forall w h, (1 <= w <= 40)%Z -> (1 <= h <= 40)%Z ->
-  grid_ok w h [(1, 1)%Z] (1, 1)%Z = true /\ grid_ok w h [(1, 1); (1, 1); (1, 1)]%Z (1, 1)%Z = true.
-Proof. exact scan_grid_ok_444. Qed.
-Print Assumptions C11_scan_grid_ok_444.
+(* identical geometry: every block of the scan — (mcuX*H+h, mcuY*V+v) — is decoded onto its
+   own cell of the component grid, for all sampling factors and all widths and heights (the
+   encoders of /repo emit 1x1 sampling; the general statement covers them) *)
+Theorem C11_scan_grid_ok : forall width height comps hv bx by_,
+  1 <= fst hv -> 1 <= snd hv ->
+  0 <= bx < comp_wb width comps hv -> 0 <= by_ < comp_hb height comps hv ->
+  last_writer (comp_wb width comps hv) (comp_hb height comps hv)
+              (scan_blocks width height comps hv)
+              (block_offset (comp_wb width comps hv) bx by_) = Some (bx, by_).
+Proof. exact scan_grid_ok. Qed.
+Print Assumptions C11_scan_grid_ok.
+Example C11_scan_grid_instance :
+  comp_wb 33 [(1, 1)] (1, 1) = 5 /\ comp_hb 9 [(1, 1)] (1, 1) = 2 /\
+  last_writer 5 2 (scan_blocks 33 9 [(1, 1)] (1, 1)) (block_offset 5 4 1) = Some (4, 1).
+Proof. repeat split; vm_compute; reflexivity. Qed.
